@@ -65,6 +65,14 @@ CHECKS = {
          "Generated-input round-trip search over bound shapes (absent, half-infinite, negative, fractional), kinds, senses, non-contiguous ids, constant-only constraints.",
          "Names/metadata/removed constraints documented as not preserved; linear functions normalised.",
          "DESIGN.md §5 C18"),
+ "C19": ("sweep over all 120 problem-type codes plus proptest-driven abstract QPs rendered by an independent QPLIB writer (comments, blank lines, trailing text, capitalisation), injected token errors and truncation after every line; oracle = abstract model and the physical line recorded by the writer",
+         "Exploration with the 120-code configuration space swept completely in every run; objective/constraint polynomials exact (1/2 x'Qx convention), value domains, names, one <=0 constraint per finite side, error messages must carry the recorded line.",
+         "Multiple blanks inside entry lines, index 0, over-long counts and upper-triangle entries are not generated (no documented expectation).",
+         "DESIGN.md §5 C19"),
+ "C20": ("model-based testing: generated histories of add_* operations with annotation maps built through the typed setters, archives built locally and re-opened, compared with an in-memory model; a non-OMMX image built with ocipkg's own builder",
+         "Generated operation sequences (0..6 layers, four kinds, empty and repeated messages, identical bytes under different kinds) checked after build() and after from_oci_archive(): order, media types, messages, annotations, typed accessors, wrong-kind and unknown-digest requests, list accessors.",
+         "Local unnamed archives only; with one message stored twice under one kind the digest may return either copy's annotations.",
+         "DESIGN.md §5 C20"),
  "C14": ("model-based stateful testing: generated relax/restore/evaluate histories interpreted against a two-map model with invariants checked after every step",
          "Generated operation sequences (<=8 quick, <=20 thorough) with ids from active/removed/unknown; Ok/Err, unchanged-on-error, constraint collection, list membership, reasons, per-state values and feasibility invariance checked after every step.",
          "Trusts the model in props/c14.rs and the reference evaluator.",
